@@ -13,6 +13,8 @@ import (
 	"strings"
 	"sync"
 	"time"
+
+	"verifharness/gen"
 )
 
 // PropInfo carries the static text that goes into evidence files.
@@ -56,6 +58,8 @@ func Main() {
 			usage()
 		}
 		os.Exit(runRegress(os.Args[2], os.Args[3]))
+	case "c13worker":
+		C13WorkerMain()
 	case "replay":
 		if len(os.Args) < 3 {
 			usage()
@@ -235,6 +239,10 @@ func orchestrate(prop, tier string) int {
 	}
 	var infra []string
 	var mu sync.Mutex
+	if err := gen.BuildCLI(filepath.Join(verif, "harness"), filepath.Join(outdir, "yaccgo-cli")); err != nil {
+		fmt.Println("INFRASTRUCTURE PROBLEM:", err)
+		return 2
+	}
 	// regression cases first
 	{
 		ctx, cancel := context.WithTimeout(context.Background(), 10*time.Minute)
